@@ -145,19 +145,31 @@ structure DirInode where
 
 def dirIndexThreshold : Nat := 256
 
-/-- dir_writer.c:359-430. `dirRef` = position recorded by `sqfs_dir_writer_begin`. -/
-def createInode (dirRef : Nat) (runs : List Run) (entCount hlinks xattr parent : Nat) : DirInode :=
+/-- most index entries an extended directory inode can announce (`inodex_count` is a `sqfs_u16`) -/
+def maxIndex : Nat := 0xFFFF
+
+/-- dir_writer.c:359-430. `dirRef` = position recorded by `sqfs_dir_writer_begin`.  `cap` = number of index
+entries after which the loop at :411 stops: `maxIndex` in the repaired code (fixes/C03-dir-index-count.patch),
+unbounded (`none`) in the unrepaired code, where the u16 counter then wraps. -/
+def createInodeCap (cap : Option Nat) (dirRef : Nat) (runs : List Run) (entCount hlinks xattr parent : Nat) : DirInode :=
   let startBlock := dirRef >>> 16
   let dirSize := dirSizeOf runs
   let ext := (xattr ≠ 0xFFFFFFFF ∨ startBlock > 0xFFFFFFFF ∨ dirSize > 0xFFFF - 3) ∨ entCount ≥ dirIndexThreshold
   if ext then
     { ext := true, nlink := (entCount + hlinks + 2) % 4294967296, size := (dirSize + 3) % 4294967296,
       startBlock := startBlock % 4294967296, offset := dirRef % 65536, parent := parent, xattr := xattr,
-      index := runs.map (fun r => (r.index % 4294967296, r.block % 4294967296,
-                                   match r.ents with | e :: _ => e.name | [] => [])) }
+      index := ((match cap with | some c => runs.take c | none => runs)).map
+        (fun (r : Run) => (r.index % 4294967296, r.block % 4294967296, match r.ents with | e :: _ => e.name | [] => [])) }
   else
     { ext := false, nlink := (entCount + hlinks + 2) % 4294967296, size := (dirSize + 3) % 65536,
       startBlock := startBlock % 4294967296, offset := dirRef % 65536, parent := parent, xattr := 0xFFFFFFFF,
       index := [] }
+
+/-- repaired `sqfs_dir_writer_create_inode` -/
+def createInode (dirRef : Nat) (runs : List Run) (entCount hlinks xattr parent : Nat) : DirInode :=
+  createInodeCap (some maxIndex) dirRef runs entCount hlinks xattr parent
+
+/-- the `inodex_count` field as stored (u16) -/
+def DirInode.indexCount (i : DirInode) : Nat := i.index.length % 65536
 
 end Sqfs.DirWriter
